@@ -4,7 +4,7 @@ Import C01m.
 
 (* For every hash H, chunker, configuration type, blob encoding and pack layout satisfying the
    stated laws, every configuration c and every well-formed source tree (only directories have
-   children; all locations of a multiply linked inode show the same content; no hash collision
+   children; all locations of a multiply linked inode — regular file, symlink or device — show the same content / target / device number; no hash collision
    among this backup's blobs): restoring the snapshot from the repository written under c yields
    the source tree, with every name, type, content, link target, device number and metadata record. *)
 Theorem C01_restore_backup_id :
@@ -15,8 +15,8 @@ Theorem C01_restore_backup_id :
     (forall c l e, In e (concat (layout c l)) <-> In e l) ->
     forall fs : tree,
     (forall a b, In a (blobs chunk fs) -> In b (blobs chunk fs) -> H a = H b -> a = b) ->
-    forall (c : cfg) (D : key -> bytes),
-    shape_ok fs -> links_ok D fs ->
+    forall (c : cfg) (D : key -> bytes) (DS : key -> payload),
+    shape_ok fs -> links_ok D DS fs ->
     restore_backup H chunk cfg enc dec layout c fs = Some fs.
 Proof. exact restore_backup_id_c. Qed.
 
@@ -29,8 +29,8 @@ Theorem C01_backup_cfg_irrelevant :
     (forall c l e, In e (concat (layout c l)) <-> In e l) ->
     forall fs : tree,
     (forall a b, In a (blobs chunk fs) -> In b (blobs chunk fs) -> H a = H b -> a = b) ->
-    forall (D : key -> bytes) (c1 c2 : cfg),
-    shape_ok fs -> links_ok D fs ->
+    forall (D : key -> bytes) (DS : key -> payload) (c1 c2 : cfg),
+    shape_ok fs -> links_ok D DS fs ->
     restore_backup H chunk cfg enc dec layout c1 fs = restore_backup H chunk cfg enc dec layout c2 fs.
 Proof. exact cfg_irrelevant_c. Qed.
 
